@@ -769,7 +769,7 @@ Proof.
     + destruct s; [|discriminate]. inv Es. split; [constructor; [exact H1 | constructor] | exact Hme].
     + cbv iota in Es.
       match type of Es with (if ?c then _ else _) = _ => replace c with true in Es by (symmetry; exact Hp) end.
-      inv Es. split; [|exact Hme]. unfold set_tstack; cbn [t_stack]. constructor; [|apply Forall_skipn; exact Ht].
+      inv Es. split; [|exact Hme]. unfold set_tstack; cbn [t_stack]. constructor; [|exact (Forall_skipn _ _ (S (length d')) s Ht)].
       unfold covt. cbn [fst pat_of_term]. apply covp_py_inst; assumption.
   - apply do_instantiate_inv in Es as Hi. destruct Hi as (Hn & m & s & Hs & Hp).
     destruct tr as [ph stk me cl jo]. cbn in Hs. subst stk. cbn in Hst, Hme.
@@ -783,7 +783,7 @@ Proof.
       unfold covt. cbn. apply covp_py_inst; [exact H1 | constructor].
     + cbv iota in Es.
       match type of Es with (if ?c then _ else _) = _ => replace c with true in Es by (symmetry; exact Hp) end.
-      inv Es. split; [|exact Hme]. unfold set_tstack; cbn [t_stack]. constructor; [|apply Forall_skipn; exact Ht].
+      inv Es. split; [|exact Hme]. unfold set_tstack; cbn [t_stack]. constructor; [|exact (Forall_skipn _ _ (S (length d')) s Ht)].
       unfold covt. cbn [fst pat_of_term]. apply covp_py_inst; assumption.
   - (* pop *)
     destruct tr as [ph stk me cl jo]. cbn in *.
@@ -809,4 +809,138 @@ Proof.
     destruct (top_is (TPat p) stk) eqn:E; inv Es. split; [apply mark_top_cov; exact Hst | exact Hme].
   - destruct tr as [ph stk me cl jo]. cbn in *. destruct ph; try discriminate. inv Es. split; [constructor | exact Hme].
   - destruct tr as [ph stk me cl jo]. cbn in *. destruct ph; try discriminate. inv Es. split; [constructor | exact Hme].
+Qed.
+
+Lemma pub_cov_step : forall tbl tr c tr',
+  cov tbl tr -> stateful_step tr c = Some tr' -> Forall (covp tbl) (pub_of [c]).
+Proof.
+  intros tbl tr c tr' [Hst _] Es.
+  destruct c; cbn [pub_of]; try constructor; try constructor; cbn [stateful_step] in Es.
+  - destruct (t_phase tr); try discriminate. destruct (t_claims tr); try discriminate.
+    destruct (pat_eqb p p0 && top_is (TProved p) (t_stack tr)) eqn:E; [|discriminate].
+    apply andb_true_iff in E. destruct E as [_ E]. apply top_is_inv in E. destruct E as (m & s & Hs).
+    rewrite Hs in Hst. inversion Hst; subst. assumption.
+  - destruct (t_phase tr); try discriminate.
+    destruct (top_is (TPat p) (t_stack tr)) eqn:E; [|discriminate].
+    apply top_is_inv in E. destruct E as (m & s & Hs). rewrite Hs in Hst. inversion Hst; subst. assumption.
+  - destruct (t_phase tr); try discriminate.
+    destruct (top_is (TPat p) (t_stack tr)) eqn:E; [|discriminate].
+    apply top_is_inv in E. destruct E as (m & s & Hs). rewrite Hs in Hst. inversion Hst; subst. assumption.
+Qed.
+
+Lemma pub_cov_run : forall cs tbl tr tblF trF bs,
+  ser_run tbl tr cs = Some (tblF, trF, bs) -> cov tbl tr ->
+  cov tblF trF /\ Forall (covp tblF) (pub_of cs).
+Proof.
+  induction cs as [|c cs IH]; intros tbl tr tblF trF bs H Hc; cbn [ser_run] in H.
+  - inv H. split; [exact Hc | constructor].
+  - destruct (is_switch c); [discriminate|].
+    destruct (ser_step tbl tr c) as [[[t1 tr1] b1]|] eqn:E1; [|discriminate].
+    destruct (ser_run t1 tr1 cs) as [[[t2 tr2] b2]|] eqn:E2; [|discriminate]. inv H.
+    pose proof (cov_step _ _ _ _ _ _ Hc E1) as Hc1.
+    destruct (IH _ _ _ _ _ E2 Hc1) as [HcF Hp]. split; [exact HcF|].
+    change (c :: cs) with ([c] ++ cs). rewrite pub_of_app. apply Forall_app. split; [|exact Hp].
+    pose proof (ser_step_extends _ _ _ _ _ _ E1) as [m1 ->].
+    pose proof (ser_run_extends _ _ _ _ _ _ E2) as [m2 ->].
+    unfold ser_step in E1. destruct (stateful_step tr c) as [tr1'|] eqn:Es; [|discriminate].
+    pose proof (pub_cov_step _ _ _ _ Hc Es) as Hpc.
+    eapply Forall_impl; [|exact Hpc]. intros a Ha. rewrite <- app_assoc. apply covp_mono. exact Ha.
+Qed.
+
+(** decoding the numbers of a file back to names *)
+Definition name_of (tbl:symtab) (i:N) : N := nth (N.to_nat i) tbl 0.
+Definition unrn (tbl:symtab) (p:pat) : pat := rn (name_of tbl) p.
+
+Lemma unrn_rn : forall tbl p, covp tbl p -> unrn tbl (rn (numbering tbl) p) = p.
+Proof.
+  unfold unrn, covp. induction p; intro H; cbn in *; try reflexivity.
+  - f_equal. assert (Hin : In n tbl) by (apply H; left; reflexivity).
+    destruct (in_idx_from tbl 0 n Hin) as [i Hi]. unfold numbering, idx_of. rewrite Hi.
+    unfold name_of. rewrite Nat2N.id. apply nth_error_nth. apply idx_of_nth. exact Hi.
+  - rewrite IHp1, IHp2; [reflexivity | |]; eapply incl_tran; try exact H; [apply incl_appr | apply incl_appl]; apply incl_refl.
+  - rewrite IHp1, IHp2; [reflexivity | |]; eapply incl_tran; try exact H; [apply incl_appr | apply incl_appl]; apply incl_refl.
+  - rewrite IHp; [reflexivity | exact H].
+  - rewrite IHp; [reflexivity | exact H].
+  - rewrite IHp1, IHp2; [reflexivity | |]; eapply incl_tran; try exact H; [apply incl_appr | apply incl_appl]; apply incl_refl.
+  - rewrite IHp1, IHp2; [reflexivity | |]; eapply incl_tran; try exact H; [apply incl_appr | apply incl_appl]; apply incl_refl.
+Qed.
+
+Lemma map_unrn_rn : forall tbl l, Forall (covp tbl) l -> map (unrn tbl) (map (rn (numbering tbl)) l) = l.
+Proof.
+  induction l as [|p l IH]; intro H; [reflexivity|]. inversion H; subst. cbn.
+  rewrite unrn_rn by assumption. rewrite IH by assumption. reflexivity.
+Qed.
+
+Lemma cov_fresh : forall ph cl, cov [] (fresh_tracker ph cl).
+Proof. intros. split; constructor. Qed.
+
+(** the gamma file, decoded with the table of its own serialisation, IS the declared theory --
+    whatever the memoiser chose to save and load *)
+Theorem gamma_exact_names : forall sel m cl cs mem1 t1 tr1 gb,
+  mgamma_calls sel m = Some (cs, mem1) ->
+  ser_run [] (fresh_tracker Gamma cl) cs = Some (t1, tr1, gb) -> wf_run (fresh_tracker Gamma cl) cs ->
+  map (unrn t1) (gamma_axioms g0 gb) = map expand (flat_axioms m).
+Proof.
+  intros sel m cl cs mem1 t1 tr1 gb Hc H Hwf.
+  rewrite (gamma_exact_opt (numbering t1) sel m cl cs mem1 t1 tr1 gb Hc H Hwf (numbering_agrees t1)).
+  apply map_unrn_rn.
+  destruct (pub_cov_run _ _ _ _ _ _ H (cov_fresh Gamma cl)) as [_ Hp].
+  unfold mgamma_calls in Hc. rewrite (pub_of_maxioms_calls _ _ _ _ _ Hc) in Hp. exact Hp.
+Qed.
+
+Theorem gamma_exact_names_plain : forall m cl cs t1 tr1 gb,
+  gamma_calls m = Some cs ->
+  ser_run [] (fresh_tracker Gamma cl) cs = Some (t1, tr1, gb) -> wf_run (fresh_tracker Gamma cl) cs ->
+  map (unrn t1) (gamma_axioms g0 gb) = map expand (flat_axioms m).
+Proof.
+  intros m cl cs t1 tr1 gb Hc H Hwf.
+  rewrite (gamma_exact (numbering t1) m cl cs t1 tr1 gb Hc H Hwf (numbering_agrees t1)).
+  apply map_unrn_rn.
+  destruct (pub_cov_run _ _ _ _ _ _ H (cov_fresh Gamma cl)) as [_ Hp].
+  unfold gamma_calls in Hc. rewrite (pub_of_axioms_calls _ _ Hc) in Hp. exact Hp.
+Qed.
+
+(** optimisation is irrelevant to what is published: the two gamma files decode to the same theory *)
+Theorem opt_irrelevant_gamma : forall sel m cl cs1 t1 tr1 gb1 cs2 mem2 t2 tr2 gb2,
+  gamma_calls m = Some cs1 ->
+  ser_run [] (fresh_tracker Gamma cl) cs1 = Some (t1, tr1, gb1) -> wf_run (fresh_tracker Gamma cl) cs1 ->
+  mgamma_calls sel m = Some (cs2, mem2) ->
+  ser_run [] (fresh_tracker Gamma cl) cs2 = Some (t2, tr2, gb2) -> wf_run (fresh_tracker Gamma cl) cs2 ->
+  map (unrn t1) (gamma_axioms g0 gb1) = map (unrn t2) (gamma_axioms g0 gb2).
+Proof.
+  intros. erewrite gamma_exact_names_plain by eassumption. erewrite gamma_exact_names by eassumption. reflexivity.
+Qed.
+
+Theorem opt_irrelevant_claims : forall sel m cl
+    gcs1 t1 tr1 gb1 tr1' ccs1 u1 ur1 cb1
+    gcs2 mem2 t2 tr2 gb2 tr2' ccs2 mem3 u2 ur2 cb2,
+  ser_run [] (fresh_tracker Gamma cl) gcs1 = Some (t1, tr1, gb1) -> wf_run (fresh_tracker Gamma cl) gcs1 ->
+  stateful_step tr1 CIntoClaim = Some tr1' -> claim_calls m = Some ccs1 ->
+  ser_run t1 tr1' ccs1 = Some (u1, ur1, cb1) -> wf_run tr1' ccs1 ->
+  ser_run [] (fresh_tracker Gamma cl) gcs2 = Some (t2, tr2, gb2) -> wf_run (fresh_tracker Gamma cl) gcs2 ->
+  stateful_step tr2 CIntoClaim = Some tr2' -> mclaim_calls sel m mem2 = Some (ccs2, mem3) ->
+  ser_run t2 tr2' ccs2 = Some (u2, ur2, cb2) -> wf_run tr2' ccs2 ->
+  map (unrn u1) (declared_claims g0 gb1 cb1) = map expand (m_claims m) /\
+  map (unrn u2) (declared_claims g0 gb2 cb2) = map expand (m_claims m).
+Proof.
+  intros sel m cl gcs1 t1 tr1 gb1 tr1' ccs1 u1 ur1 cb1 gcs2 mem2 t2 tr2 gb2 tr2' ccs2 mem3 u2 ur2 cb2
+         G1 W1 S1 C1 H1 V1 G2 W2 S2 C2 H2 V2.
+  assert (cov_claim : forall t tr tr', cov t tr -> stateful_step tr CIntoClaim = Some tr' -> cov t tr').
+  { intros t [ph s me c jo] tr' [_ Hm] Hs. cbn in Hs. destruct ph; try discriminate. inv Hs.
+    split; [constructor | exact Hm]. }
+  split.
+  - destruct (claims_exact (numbering u1) m cl gcs1 t1 tr1 gb1 tr1' ccs1 u1 ur1 cb1 G1 W1 S1 C1 H1 V1
+                (numbering_agrees u1)) as (s1 & _ & _ & Hd).
+    rewrite Hd. apply map_unrn_rn.
+    destruct (pub_cov_run _ _ _ _ _ _ G1 (cov_fresh Gamma cl)) as [Hc1 _].
+    destruct (pub_cov_run _ _ _ _ _ _ H1 (cov_claim _ _ _ Hc1 S1)) as [_ Hp].
+    unfold claim_calls in C1. rewrite (pub_of_claims_calls _ _ C1) in Hp.
+    rewrite map_rev in Hp. apply Forall_rev in Hp. rewrite rev_involutive in Hp. exact Hp.
+  - rewrite (claims_exact_opt (numbering u2) sel m cl gcs2 t2 tr2 gb2 tr2' mem2 ccs2 mem3 u2 ur2 cb2
+               G2 W2 S2 C2 H2 V2 (numbering_agrees u2)).
+    apply map_unrn_rn.
+    destruct (pub_cov_run _ _ _ _ _ _ G2 (cov_fresh Gamma cl)) as [Hc1 _].
+    destruct (pub_cov_run _ _ _ _ _ _ H2 (cov_claim _ _ _ Hc1 S2)) as [_ Hp].
+    unfold mclaim_calls in C2. rewrite (pub_of_mclaims_calls _ _ _ _ _ C2) in Hp.
+    rewrite map_rev in Hp. apply Forall_rev in Hp. rewrite rev_involutive in Hp. exact Hp.
 Qed.
